@@ -33,7 +33,7 @@ def drop(wt):
 
 def run_demo(demo: Path, root):
     cmd = ['/venv/bin/python', str(demo), root] if demo.suffix == '.py' else ['bash', str(demo), root]
-    env = dict(os.environ, PYTHONPATH=f'{root}/generation/src', TMPDIR=f'{root}/.scratch_demo')
+    env = dict(os.environ, PYTHONPATH=f'{root}/generation/src', TMPDIR=f'{root}/.scratch_demo', PYK_SHIM='/verif/shims')
     os.makedirs(f'{root}/.scratch_demo', exist_ok=True)
     try:
         r = subprocess.run(cmd, capture_output=True, text=True, timeout=1800, env=env, cwd=root)
